@@ -135,6 +135,7 @@ def main():
             env = goenv()
             env.update({"VERIF_TIER": tier, "VERIF_SEED": str(seed), "VERIF_SHARD": "%d/%d" % (s, shards), "VERIF_OUT": out})
             env["GOMAXPROCS"] = str(cfg.get("gomaxprocs", max(1, ncpu // shards)))
+            env.setdefault("GOMEMLIMIT", "3GiB")  # safety net: the sandbox has no memory limit
             if budget:
                 env["VERIF_BUDGET_S"] = str(budget)
             if replay:
